@@ -38,6 +38,9 @@ def run(ctx, crate):
     # a declared `{key:width}` (any width up to u16::MAX) is rendered with exactly the declared width/alignment/truncate
     from .c12 import rule_placeholder_fields_forwarded
     rule_placeholder_fields_forwarded(ctx, crate)
+    # literal text is rendered as itself: a template literal cannot be taken for the wide element's in-band marker
+    from .c11 import rule_marker_out_of_band
+    rule_marker_out_of_band(ctx, crate)
 
 
 def rule_brace_not_dropped(ctx, crate, rule="R-BRACE-NOT-DROPPED"):
@@ -72,6 +75,9 @@ def rule_brace_not_dropped(ctx, crate, rule="R-BRACE-NOT-DROPPED"):
         return False
     # only the first match (on (state, c)): the second one also inspects new.0
     first = [x for x in K.discr_switches(b) if K.head_of_type(x[2].get("ty", "")) == "style::State" and from_state(x[2])]
+    # the scrutinee of the first match is the pair (state, character read); the second match pairs two states
+    by_ty = [x for x in first if b.locals[x[2]["l"]]["ty"].replace(" ", "") == "(style::State,char)"]
+    first = by_ty or first
     if not first:
         ctx.lost(rule, cfg, "no discriminant test of the parser state found")
         return
